@@ -141,7 +141,7 @@ class Scheduler:
             if cur not in en:
                 # the running thread blocked or finished: no preemption, a successor is needed
                 k = seg[2] if seg else 0
-                i = self.threads.index(cur) if cur in self.threads else 0
+                i = self.threads.index(cur) if cur in self.threads else -1      # (-1: the generated starter)
                 order = [t for t in self.threads[i + 1:] + self.threads[:i + 1] if t in en]
                 return order[k % len(order)]
             if seg is None:
